@@ -842,13 +842,24 @@ pub fn assert_slippage_tolerance(
                     });
                 }
 
-                // both deposits and pools are sorted by denom so the indexes match
-                if Decimal256::from_ratio(deposit_amounts[0], deposit_amounts[1])
-                    * one_minus_slippage_tolerance
-                    > Decimal256::from_ratio(pools[0], pools[1])
-                    || Decimal256::from_ratio(deposit_amounts[1], deposit_amounts[0])
-                        * one_minus_slippage_tolerance
-                        > Decimal256::from_ratio(pools[1], pools[0])
+                // both deposits and pools are sorted by denom so the indexes match.
+                // The ratios are compared by exact cross-multiplication, as truncating them to
+                // 18 decimals loses the comparison when a ratio is tiny in base units, i.e.
+                // d0 / d1 * (1 - tolerance) > p0 / p1 becomes d0 * (1 - tolerance) * p1 > p0 * d1.
+                // The amounts are below 2^128 and the atomics below 2^60, so the products fit
+                // into a Uint512.
+                let one_minus_slippage_tolerance_atomics =
+                    Uint512::from(one_minus_slippage_tolerance.atomics());
+                let one_atomics = Uint512::from(Decimal256::one().atomics());
+                let deposit_0 = Uint512::from(deposit_amounts[0]);
+                let deposit_1 = Uint512::from(deposit_amounts[1]);
+                let pool_0 = Uint512::from(pools[0]);
+                let pool_1 = Uint512::from(pools[1]);
+
+                if deposit_0 * one_minus_slippage_tolerance_atomics * pool_1
+                    > pool_0 * deposit_1 * one_atomics
+                    || deposit_1 * one_minus_slippage_tolerance_atomics * pool_0
+                        > pool_1 * deposit_0 * one_atomics
                 {
                     return Err(ContractError::MaxSlippageAssertion);
                 }
